@@ -409,6 +409,8 @@ def contains(ctx, container, item):
         from .seq import v_has, Val
         if container.term.sort() == Val:
             return simp(v_has(container.term, str_term(item)))
+    if type(container).__name__ == 'FMap':
+        return container.contains(item)
     if isinstance(container, OpaqueVal) and container.tag == 'dictlike':
         return simp(ufun('has_key', container.term.sort(), PyStr, z3.BoolSort())(container.term, str_term(item)))
     if container is None:
